@@ -18,7 +18,7 @@ CHECKS = {
          'kill points are system-call boundaries; atime/ctime/st_blocks not compared', '6/C03'),
  'C04': ('fault_enumeration', 'system-call fault injection (ptrace) at generated fault points of a recorded run; reference-model oracle on exit 0',
          'For generated copies, a recording run enumerates every (call, path, k) fault point of every thread; one (thorough: two) generated point is failed with a man-page errno and the run must either exit non-zero with a message or leave a destination equal to the reference model including requested mode/mtime/fsync/backup.',
-         'errno returned without side effect (early failure); single faults quick, pairs thorough; one listed known finding (glob expansion)', '6/C04'),
+         'errno returned without side effect (early failure); single faults quick, pairs thorough; one listed known finding (glob expansion swallows lookup errors)', '6/C04'),
  'C05': ('fault_enumeration', 'fault injection by ptrace supervisor (short counts, unsupported-facility errnos) over proptest-generated files; byte round-trip oracle',
          'Each generated file case is run under a generated fault plan that shortens or fails copy/read/write/clone/extent calls exactly as a kernel legally may; exit 0 must still mean byte-exact.',
          'x86-64 ptrace; injected results are indistinguishable from kernel results; FICLONE success is not available on this filesystem (see C15)', '6/C05'),
@@ -29,8 +29,8 @@ CHECKS = {
          'Generated modes (all of 0..07777), mtimes, xattrs, owners, flag subsets, umasks and pre-existing destinations; after exit 0 the destination must carry exactly the requested attributes; a tenth of the runs are scheduled with one starved worker.',
          'privileged (root) branch only; ext4 nanosecond timestamps; marker files instead of the wall clock for --no-timestamps', '6/C10'),
  'C16': ('exploration', 'property-based testing of generated invalid invocations; exit-status and whole-sandbox snapshot-equality oracle',
-         '16 rejection classes x position x destination state x driver x flag noise: each must exit non-zero and leave the sandbox byte-and-metadata identical.',
-         'clap-level rejections and main.rs validations are both covered; --glob with an unmatched literal is excluded (documented open question in the code)', '6/C16'),
+         '26 rejection classes x position x destination state x driver x flag noise: each must exit non-zero and leave the sandbox byte-and-metadata identical.',
+         'clap-level rejections and main.rs validations are both covered; --glob with a literal name that does not exist is generated and is the listed known finding C16|MissingSourceViaGlob|accepted (documented open question in the code)', '6/C16'),
  'C08': ('exploration', 'property-based testing with generated collisions, partly under the ptrace priority scheduler; snapshot-equality oracle on every pre-existing entry plus exit-status oracle',
          'Generated sources copied with -n into destinations holding colliding files, directories, valid and dangling symlinks, fifos and sockets; every pre-existing entry anywhere must be unchanged, nothing may appear outside the destination, and a collision of a file/link/special source must end in a non-zero status, also under walker-first/workers-first/starved-worker schedules.',
          'collisions below an already colliding directory are unreachable (xcp aborts at the directory) and reported as a separate shadowed class', '6/C08'),
